@@ -1,4 +1,5 @@
 """C18 — epochs partition time (epoch-manager)."""
+import json
 import z3
 
 from .. import smt
@@ -15,6 +16,64 @@ def _config(I, d, g):
     I.world.store('epoch')['config'] = cfg
 
 
+def _expected_current(d, g, t):
+    now = t // NS
+    if now < g:
+        return None
+    eid = (now - g) // d
+    return eid, (g + eid * d) * NS
+
+
+def _replay_current(times):
+    def build(label, m):
+        d, g = m['duration'], m['genesis']
+        ts = [m[k] for k in times]
+        steps = []
+        for t in ts:
+            steps.append({'op': 'set_time', 'nanos': str(t)})
+            steps.append({'op': 'query', 'contract': 'epoch_manager', 'msg': {'current_epoch': {}}})
+        sc = {'setup': {'time_nanos': '0', 'epoch': {'genesis': str(g), 'duration': str(d)}}, 'steps': steps}
+
+        def judge(out):
+            res = out['results']
+            for k, t in enumerate(ts):
+                r = res[2 * k + 1]
+                exp = _expected_current(d, g, t)
+                if exp is None:
+                    if 'err' not in r:
+                        return True, 'time %d is before genesis %d but the query returned %s' % (t // NS, g, json.dumps(r))
+                else:
+                    if 'ok' not in r:
+                        return True, 'time %d >= genesis %d but the query failed: %s' % (t // NS, g, json.dumps(r)[:200])
+                    ep = r['ok']['epoch']
+                    if int(ep['id']) != exp[0] or int(ep['start_time']) != exp[1]:
+                        return True, 'expected id=%d start=%d, observed %s' % (exp[0], exp[1], json.dumps(ep))
+            return False, 'native run agrees with floor((now-genesis)/duration)'
+        return sc, judge
+    return build
+
+
+def _replay_epoch(label, m):
+    d, g, eid = m['duration'], m['genesis'], m['id']
+    sc = {'setup': {'time_nanos': '0', 'epoch': {'genesis': str(g), 'duration': str(d)}},
+          'steps': [{'op': 'query', 'contract': 'epoch_manager', 'msg': {'epoch': {'id': eid}}}]}
+
+    def judge(out):
+        r = out['results'][0]
+        exact = (g + eid * d) * NS
+        if exact > U64:
+            if 'ok' in r:
+                return True, 'start not representable but query returned %s' % json.dumps(r)
+            return False, 'fails as required'
+        if 'ok' not in r:
+            return True, 'representable start %d but query failed: %s' % (exact, json.dumps(r)[:200])
+        ep = r['ok']['epoch']
+        if int(ep['id']) != eid or int(ep['start_time']) != exact:
+            return True, 'expected id=%d start=%d observed %s' % (eid, exact, json.dumps(ep))
+        return False, 'native run agrees'
+    return sc, judge
+
+
 def _epoch_of(resp):
     ep = resp.get('epoch')
     return ep.get('id'), ep.get('start_time')
@@ -23,7 +82,7 @@ def _epoch_of(resp):
 @obligation('C18', 'K1.current_epoch', entries=['query_current_epoch', 'query_epoch'], kind='K',
             statement='now<genesis => Err; else Ok with id=floor((now-g)/d), start=g+id*d, start<=now<start+d; never a panic',
             bounds='duration in [86400, 2^64), genesis, block time (nanoseconds) full u64',
-            covers=['ok', 'err_before_genesis'])
+            covers=['ok', 'err_before_genesis'], replay=_replay_current(['block_time_nanos']))
 def k1(I):
     d = I.sym('duration', lo=86400, hi=U64)
     g = I.sym('genesis', hi=U64)
@@ -53,7 +112,7 @@ def k1(I):
 
 @obligation('C18', 'K2.epoch_by_id', entries=['query_epoch'], kind='K',
             statement='Epoch{id}: Ok(start = genesis + id*duration) exactly when that instant is representable; otherwise Err/abort, never a wrapped value',
-            bounds='id, genesis, duration full u64', covers=['ok', 'fail'])
+            bounds='id, genesis, duration full u64', covers=['ok', 'fail'], replay=_replay_epoch)
 def k2(I):
     d = I.sym('duration', lo=86400, hi=U64)
     g = I.sym('genesis', hi=U64)
@@ -76,7 +135,7 @@ def k2(I):
 
 @obligation('C18', 'K3.monotone', entries=['query_current_epoch'], kind='R',
             statement='t1<=t2 => id(t1)<=id(t2); id(now+duration) = id(now)+1',
-            bounds='all u64', covers=['both_ok'])
+            bounds='all u64', covers=['both_ok'], replay=_replay_current(['t1_nanos', 't2_nanos']))
 def k3(I):
     d = I.sym('duration', lo=86400, hi=U64)
     g = I.sym('genesis', hi=U64)
